@@ -457,14 +457,14 @@ pub fn run(tier: Tier, seed: u64) -> i32 {
     rep.exhaustive = true;
     rep.rule = "(1) invariant sweep: after every successful instruction of the history workload and of a setter storm (every initialize_*/set_* of config, fee tier, adaptive tier, pool, oracle with hostile u16/u32/u128 arguments, right and wrong authorities, pools created with reversed / identical mints and out-of-bound prices, swaps that push empty pools to either price bound) every Config, FeeTier, AdaptiveFeeTier, Whirlpool and Oracle account in the bank is decoded and checked against the published bounds (independent re-statement of the adaptive-constant rules). (2) mint admission lattice, enumerated: every subset up to size N (quick 2, thorough 3) of 24 Token-2022 extension type numbers (all mint extensions, account-side and unknown numbers) x freeze authority x token badge {absent, present, of another config, of another mint, not program-owned} (+ native-2022 mint, truncated TLV), mint bytes written by the harness's own TLV writer, run through initialize_pool_v2 and initialize_pool_with_adaptive_fee with the mint in position A and B and initialize_reward_v2; whatever the statement's allow-list forbids must fail. distinct = (path, extension set, freeze, badge)".into();
     rep.assumptions = vec!["only rejection is judged (a supported combination that fails for another reason is counted, not flagged)".into(), "badges of other configs / mints are written directly into the badge PDA (state seeding)".into()];
-    let per_shard = tier.pick(8, 800);
+    let per_shard = tier.pick(32, 800);
     let mut acc = run_histories(
         seed,
         per_shard,
         move |_r| HistCfg { ops: 100, spl_only: false, allow_adaptive: true, allow_transfer_fee: true, w_swap: 45, w_liq: 20, w_fees: 3, w_lifecycle: 2, w_clock: 2, w_setters: 28, ..Default::default() },
         || vec![Box::new(C19m) as Box<dyn Monitor>],
     );
-    acc.merge(storm(seed ^ 0x19, tier.pick(1500, 150_000)));
+    acc.merge(storm(seed ^ 0x19, tier.pick(6_000, 150_000)));
     acc.merge(lattice(seed ^ 0x1919, tier.pick(2, 3)));
     rep.acc = acc;
     rep.floor("pools_swept", 20_000);
